@@ -50,6 +50,7 @@ pub fn wrap(p: Placement, t: Ty) -> Ty {
                     name: format!("{}Holder", d.name),
                     body: vmodel::DeclBody::Enum {
                         sorted: false,
+                        steps: vec![],
                         variants: vec![
                             vmodel::Variant { name: "Empty".into(), shape: vmodel::Shape::Unit, transient: false, record: Record { fields: vec![], steps: vec![] } },
                             vmodel::Variant { name: "Rec".into(), shape: vmodel::Shape::Struct, transient: false, record: r.clone() },
